@@ -70,7 +70,7 @@ Ltac brk :=
   end.
 
 Ltac upd_cases k s :=
-  unfold with_strm, with_strms, with_has_data, with_task, with_cwin, emit, with_bad; cbn [strms out closed cwin has_data task ids maxf iw bad_pick];
+  unfold with_strm, with_strms, with_has_data, with_task, with_cwin, emit, with_bad; cbn [strms out closed cwin has_data task ids maxf iw bad_pick reader_ok];
   unfold upd; destruct (Z.eqb_spec k s); [subst|]; auto.
 
 (* ================================================================= C08: the buffer is bounded *)
@@ -193,8 +193,8 @@ Proof.
   intros HI k. pose proof (HI k) as Hk; pose proof (HI s) as Hs.
   unfold send_data.
   destruct (s_h2open (strms t s)); cbn [negb].
-  2:{ destruct (s_inbufs (strms t s)); upd_cases k s. apply sinv_forget, sinv_force, Hs. }
-  destruct (s_inbufs (strms t s)); cbn [negb]; [|upd_cases k s].
+  2:{ destruct (s_inbufs (strms t s)); upd_cases k s; auto using sinv_forget, sinv_force. }
+  destruct (s_inbufs (strms t s)); cbn [negb]; [|upd_cases k s; apply sinv_forget, Hs].
   destruct (sb_pop (s_buf (strms t s)) (chunk_size t (strms t s))) as [data b] eqn:Hpop.
   pose proof (sinv_pop _ _ _ _ Hpop Hs) as Hs1.
   destruct data; destruct (sb_complete b); upd_cases k s;
@@ -216,20 +216,61 @@ Proof. intros HI. unfold send_wake. destruct (task t); try exact HI. destruct (h
 Lemma BInv_map t g : (forall x, sinv x -> sinv (g x)) -> BInv t -> BInv (map_strms t g).
 Proof. intros Hg HI k. cbn. apply Hg, HI. Qed.
 
+Lemma BInv_globals t t' : strms t' = strms t -> BInv t -> BInv t'.
+Proof. intros H HI k. rewrite H. apply HI. Qed.
+
+Lemma BInv_unblock_or_crash t s : BInv t -> BInv (unblock_or_crash t s).
+Proof.
+  intros HI. unfold unblock_or_crash. destruct (s_inbufs (strms t s)); [|exact HI].
+  destruct (s_tree (strms t s)); [|exact HI].
+  intro k. upd_cases k s. apply sinv_set_blocked, HI.
+Qed.
+
+Lemma BInv_unblock_all t : BInv t -> BInv (unblock_all t).
+Proof.
+  intros HI. unfold unblock_all.
+  assert (H : BInv (map_strms t (fun x => if s_inbufs x then set_blocked x false else x))).
+  { apply BInv_map; [|exact HI]. intros x Hx. destruct (s_inbufs x); auto using sinv_set_blocked. }
+  destruct (existsb _ _); exact H.
+Qed.
+
+Lemma sinv_prio x :
+  sinv x ->
+  sinv {| s_buf := s_buf x; s_inbufs := s_inbufs x; s_live := s_live x; s_tree := true; s_blocked := true;
+          s_win := s_win x; s_h2open := s_h2open x; s_pc := s_pc x; s_prog := s_prog x;
+          s_pushed := s_pushed x; s_forced := s_forced x; s_created := s_created x |}.
+Proof. apply sinv_same_buf; reflexivity. Qed.
+
 Lemma BInv_client t c : label_ok (LClient c) -> BInv t -> BInv (client_step t c).
 Proof.
   intros Hok HI. unfold client_step. destruct (closed t); [exact HI|].
-  destruct c as [s prog|s n|n|n|s|]; cbn [label_ok] in Hok.
-  - destruct (s_created (strms t s)); [exact HI|]. intro k. cbn [strms]. upd_cases k s.
+  destruct c as [s prog|s n|n|n|s|s dep|s|s|]; cbn [label_ok] in Hok; try exact HI.
+  - destruct (s_created (strms t s)); [exact HI|]. intro k. cbn [strms add_id]. upd_cases k s.
     split; [|exact Hok]. unfold bbound; cbn. pose proof HIGH_LOW; lia.
-  - intro k. pose proof (HI s) as Hs. destruct (s_inbufs _) eqn:?; upd_cases k s;
-      auto using sinv_set_blocked, sinv_set_win.
-  - intro k. cbn. destruct (s_inbufs _); auto using sinv_set_blocked.
-  - intro k. cbn. destruct (s_h2open _); cbn; destruct (s_inbufs _); auto using sinv_set_blocked, sinv_set_win.
-  - intro k. pose proof (HI s) as Hs. unfold close_stream. cbn [strms with_strm with_strms]. rewrite upd_same.
-    cbn [s_live set_h2open]. destruct (s_live (strms t s)); cbn [strms with_strm with_strms with_has_data];
-      rewrite ?upd_same; cbn [s_inbufs set_live set_h2open]; destruct (s_inbufs (strms t s)); upd_cases k s;
-      auto using sinv_set_blocked, sinv_force, sinv_set_live, sinv_set_h2open.
+  - apply (BInv_globals (unblock_or_crash (with_strm t s (set_win (strms t s) (s_win (strms t s) + n))) s)); [reflexivity|].
+    apply BInv_unblock_or_crash. intro k. upd_cases k s. apply sinv_set_win, HI.
+  - apply (BInv_globals (unblock_all (with_cwin t (cwin t + n)))); [reflexivity|].
+    apply BInv_unblock_all. exact HI.
+  - apply BInv_unblock_all. intro k. cbn. destruct (s_h2open _); auto using sinv_set_win.
+  - apply (BInv_globals (unblock_or_crash
+        (let t1 := close_stream (with_strm t s (set_h2open (strms t s) false)) s in
+         if s_inbufs (strms t1 s) then with_strm t1 s (force_close (strms t1 s)) else t1) s)); [reflexivity|].
+    apply BInv_unblock_or_crash. cbn zeta.
+    assert (H1 : BInv (close_stream (with_strm t s (set_h2open (strms t s) false)) s)).
+    { unfold close_stream. cbn [strms with_strm with_strms]. rewrite upd_same. cbn [s_live set_h2open].
+      destruct (s_live (strms t s)); intro k; upd_cases k s; rewrite ?Z.eqb_refl; auto using sinv_set_live, sinv_set_h2open. }
+    destruct (s_inbufs _); [|exact H1]. intro k. upd_cases k s. apply sinv_force, H1.
+  - (* CPriority *)
+    assert (Hins : forall t0 k0, BInv t0 ->
+              BInv (let x := strms t0 k0 in
+                    if s_tree x then t0
+                    else add_id (with_strm t0 k0
+                           {| s_buf := s_buf x; s_inbufs := s_inbufs x; s_live := s_live x; s_tree := true; s_blocked := true;
+                              s_win := s_win x; s_h2open := s_h2open x; s_pc := s_pc x; s_prog := s_prog x;
+                              s_pushed := s_pushed x; s_forced := s_forced x; s_created := s_created x |}) k0)).
+    { intros t0 k0 H0. cbn zeta. destruct (s_tree (strms t0 k0)); [exact H0|].
+      intro k. cbn [strms add_id]. upd_cases k k0. apply sinv_prio, H0. }
+    intro k. cbn [strms with_has_data]. apply Hins. destruct (dep =? 0); [exact HI | apply Hins, HI].
   - intro k. cbn. destruct (s_inbufs _); auto using sinv_force, sinv_set_live.
 Qed.
 
@@ -290,7 +331,7 @@ Definition not_stuck (x : strm) : Prop :=
 
 Record SI (o : list frame) (c : bool) (s : Z) (x : strm) : Prop := {
   si_order : s_forced x = false -> s_pushed x = (sent_on s o ++ b_data (s_buf x))%list;
-  si_tree : s_inbufs x = s_tree x;
+  si_tree : s_inbufs x = true -> s_tree x = true;
   si_forced_h2 : s_forced x = true -> s_h2open x = false \/ c = true;
   si_forced_buf : s_forced x = true ->
                   b_is_empty (s_buf x) = true /\ b_complete (s_buf x) = true /\ b_data (s_buf x) = [];
@@ -301,7 +342,7 @@ Record SI (o : list frame) (c : bool) (s : Z) (x : strm) : Prop := {
   si_closed : c = true -> s_inbufs x = true -> s_forced x = true;
   si_h2closed : s_h2open x = false -> s_inbufs x = true -> s_forced x = true;
   si_fresh : s_created x = false ->
-             sent_on s o = [] /\ ends_on s o = O /\ s_pc x = PDone /\ s_tree x = false /\ s_inbufs x = false
+             sent_on s o = [] /\ ends_on s o = O /\ s_pc x = PDone /\ s_inbufs x = false
 }.
 
 Definition SInv (t : st) : Prop := forall k, SI (out t) (closed t) k (strms t k).
@@ -343,7 +384,7 @@ Qed.
 Ltac si_fresh :=
   match goal with
   | Hfr : s_created ?x = false -> _ |- s_created ?x = false -> _ =>
-      let Hx := fresh in intros Hx; destruct (Hfr Hx) as (? & ? & ? & ? & ?);
+      let Hx := fresh in intros Hx; destruct (Hfr Hx) as (? & ? & ? & ?);
       first [congruence | repeat split; solve [assumption | congruence]]
   end.
 Ltac si_close :=
@@ -444,6 +485,12 @@ Proof.
   - intros Hx. destruct (Hen Hx) as (? & ? & ?). auto.
 Qed.
 
+Lemma SI_forget_gone o c s x : s_inbufs x = false -> SI o c s x -> SI o c s (forget x).
+Proof.
+  intros Hi H. si_start H; try assumption; try (intros; congruence); auto; try si_fresh.
+  intros Hx. destruct (Hen Hx) as (? & ? & ?). auto.
+Qed.
+
 (* pop and the DATA frame that carries what was popped *)
 Lemma SI_pop_data o c s x n d b :
   sb_pop (s_buf x) n = (d, b) -> s_inbufs x = true -> s_forced x = false -> SI o c s x ->
@@ -494,16 +541,16 @@ Proof.
   - si_start H; si_close.
 Qed.
 
-Lemma SI_new o c s prog w :
+Lemma SI_new o c s prog w bl :
   ends_on s o = O -> sent_on s o = [] -> c = false ->
-  SI o c s {| s_buf := sbuf_new; s_inbufs := true; s_live := true; s_tree := true; s_blocked := true;
+  SI o c s {| s_buf := sbuf_new; s_inbufs := true; s_live := true; s_tree := true; s_blocked := bl;
               s_win := w; s_h2open := true; s_pc := PReady; s_prog := prog; s_pushed := [];
               s_forced := false; s_created := true |}.
 Proof. intros He Hs Hc. constructor; cbn; rewrite ?He, ?Hs; try discriminate; try reflexivity; try lia; auto; intros; congruence. Qed.
 
 Ltac updc k s :=
   unfold with_strm, with_strms, with_has_data, with_task, with_cwin, emit, with_bad;
-  cbn [strms out closed cwin has_data task ids maxf iw bad_pick];
+  cbn [strms out closed cwin has_data task ids maxf iw bad_pick reader_ok];
   unfold upd; destruct (Z.eqb_spec k s); [subst|].
 Ltac quiet_any := first [apply quiet_headers | apply quiet_rst | apply quiet_other; cbn; congruence].
 Ltac other Hk := first [exact Hk | apply SI_quiet; [quiet_any | exact Hk]].
@@ -567,7 +614,8 @@ Proof.
   intros Hcl HI k. pose proof (HI k) as Hk; pose proof (HI s) as Hs.
   unfold send_data.
   destruct (s_h2open (strms t s)) eqn:Hopen; cbn [negb].
-  - destruct (s_inbufs (strms t s)) eqn:Hin; cbn [negb]; [|updc k s; [exact Hs | exact Hk]].
+  - destruct (s_inbufs (strms t s)) eqn:Hin; cbn [negb].
+    2:{ updc k s; [apply SI_forget_gone; assumption | exact Hk]. }
     destruct (sb_pop (s_buf (strms t s)) (chunk_size t (strms t s))) as [data b] eqn:Hpop.
     assert (Hnf : s_forced (strms t s) = false).
     { destruct (s_forced (strms t s)) eqn:Hf; [|reflexivity].
@@ -587,9 +635,9 @@ Proof.
       * apply SI_quiet; [quiet_any|]. apply SI_quiet; [quiet_any|]. exact Hk.
       * apply SI_set_win, Hs1.
       * other Hk.
-  - destruct (s_inbufs (strms t s)) eqn:Hin; [|updc k s; [exact Hs | exact Hk]].
-    updc k s; [|exact Hk].
-    apply SI_forget; [left; reflexivity|]. apply SI_force; [exact Hin | left; exact Hopen | exact Hs].
+  - destruct (s_inbufs (strms t s)) eqn:Hin; (updc k s; [|exact Hk]).
+    + apply SI_forget; [left; reflexivity|]. apply SI_force; [exact Hin | left; exact Hopen | exact Hs].
+    + apply SI_forget_gone; assumption.
 Qed.
 
 Lemma SInv_send_iter t p : SInv t -> SInv (send_iter t p).
@@ -604,26 +652,70 @@ Qed.
 Lemma SInv_send_wake t : SInv t -> SInv (send_wake t).
 Proof. intros HI. unfold send_wake. destruct (task t); try exact HI. destruct (has_data t); exact HI. Qed.
 
+Lemma SI_prio o c s x :
+  SI o c s x ->
+  SI o c s {| s_buf := s_buf x; s_inbufs := s_inbufs x; s_live := s_live x; s_tree := true; s_blocked := true;
+              s_win := s_win x; s_h2open := s_h2open x; s_pc := s_pc x; s_prog := s_prog x;
+              s_pushed := s_pushed x; s_forced := s_forced x; s_created := s_created x |}.
+Proof. intro H. si_start H; try assumption; auto. Qed.
+
+Lemma SInv_globals t t' : strms t' = strms t -> out t' = out t -> closed t' = closed t -> SInv t -> SInv t'.
+Proof. intros H1 H2 H3 HI k. rewrite H1, H2, H3. apply HI. Qed.
+
+Lemma SInv_unblock_or_crash t s : SInv t -> SInv (unblock_or_crash t s).
+Proof.
+  intros HI. unfold unblock_or_crash. destruct (s_inbufs (strms t s)); [|exact HI].
+  destruct (s_tree (strms t s)); [|exact HI].
+  intro k. pose proof (HI k) as Hk. pose proof (HI s) as Hs. updc k s; [apply SI_set_blocked, Hs | exact Hk].
+Qed.
+
+Lemma SInv_unblock_all t : SInv t -> SInv (unblock_all t).
+Proof.
+  intros HI. unfold unblock_all.
+  assert (H : SInv (map_strms t (fun x => if s_inbufs x then set_blocked x false else x))).
+  { intro k. cbn. destruct (s_inbufs (strms t k)); [apply SI_set_blocked|]; apply HI. }
+  destruct (existsb _ _); exact H.
+Qed.
+
 Lemma SInv_client t c : SInv t -> SInv (client_step t c).
 Proof.
   intros HI. unfold client_step. destruct (closed t) eqn:Hcl; [exact HI|].
-  destruct c as [s prog|s n|n|n|s|].
-  - destruct (s_created (strms t s)) eqn:Hcr; [exact HI|]. intro k. cbn [strms out closed].
+  destruct c as [s prog|s n|n|n|s|s dep|s|s|]; try exact HI.
+  - destruct (s_created (strms t s)) eqn:Hcr; [exact HI|]. intro k. cbn [strms out closed add_id].
     pose proof (HI s) as Hs. pose proof (HI k) as Hk. updc k s; [|exact Hk].
     destruct (si_fresh _ _ _ _ Hs Hcr) as (H1 & H2 & _). apply SI_new; assumption.
-  - intro k. pose proof (HI s) as Hs. pose proof (HI k) as Hk.
-    destruct (s_inbufs _) eqn:?; updc k s; try exact Hk; si_auto Hs.
-  - intro k. pose proof (HI k) as Hk. cbn. destruct (s_inbufs _); si_auto Hk.
-  - intro k. pose proof (HI k) as Hk. cbn. destruct (s_h2open _); cbn; destruct (s_inbufs _); si_auto Hk.
-  - intro k. pose proof (HI s) as Hs. pose proof (HI k) as Hk. unfold close_stream.
+  - apply (SInv_globals (unblock_or_crash (with_strm t s (set_win (strms t s) (s_win (strms t s) + n))) s));
+      try reflexivity.
+    apply SInv_unblock_or_crash. intro k. pose proof (HI s) as Hs. pose proof (HI k) as Hk.
+    updc k s; [apply SI_set_win, Hs | exact Hk].
+  - apply (SInv_globals (unblock_all (with_cwin t (cwin t + n)))); try reflexivity.
+    apply SInv_unblock_all. exact HI.
+  - apply SInv_unblock_all. intro k. pose proof (HI k) as Hk. cbn. destruct (s_h2open _); si_auto Hk.
+  - apply (SInv_globals (unblock_or_crash
+        (let t1 := close_stream (with_strm t s (set_h2open (strms t s) false)) s in
+         if s_inbufs (strms t1 s) then with_strm t1 s (force_close (strms t1 s)) else t1) s)); try reflexivity.
+    apply SInv_unblock_or_crash. cbn zeta.
+    intro k. pose proof (HI s) as Hs. pose proof (HI k) as Hk. unfold close_stream.
     cbn [strms with_strm with_strms]. rewrite upd_same.
     cbn [s_live set_h2open]. destruct (s_live (strms t s)); cbn [strms with_strm with_strms with_has_data];
       rewrite ?upd_same; cbn [s_inbufs set_live set_h2open]; destruct (s_inbufs (strms t s)) eqn:Hin; updc k s;
-      try exact Hk; rewrite ?upd_same.
-    + apply SI_set_blocked. apply (SI_force_rst _ _ _ (set_live (strms t s) false)); [exact Hin|]. apply SI_set_live, Hs.
+      try exact Hk; rewrite ?upd_same; rewrite ?Z.eqb_refl.
+    + apply (SI_force_rst _ _ _ (set_live (strms t s) false)); [exact Hin|]. apply SI_set_live, Hs.
     + apply SI_set_live. apply SI_set_h2closed'; assumption.
-    + apply SI_set_blocked. apply (SI_force_rst _ _ _ (strms t s)); [exact Hin|]. exact Hs.
+    + apply (SI_force_rst _ _ _ (strms t s)); [exact Hin|]. exact Hs.
     + apply SI_set_h2closed'; assumption.
+  - (* CPriority *)
+    assert (Hins : forall t0 k0, SInv t0 ->
+              SInv (let x := strms t0 k0 in
+                    if s_tree x then t0
+                    else add_id (with_strm t0 k0
+                           {| s_buf := s_buf x; s_inbufs := s_inbufs x; s_live := s_live x; s_tree := true; s_blocked := true;
+                              s_win := s_win x; s_h2open := s_h2open x; s_pc := s_pc x; s_prog := s_prog x;
+                              s_pushed := s_pushed x; s_forced := s_forced x; s_created := s_created x |}) k0)).
+    { intros t0 k0 H0. cbn zeta. destruct (s_tree (strms t0 k0)); [exact H0|].
+      intro k. pose proof (H0 k0) as Hs. pose proof (H0 k) as Hk. cbn [strms out closed add_id].
+      updc k k0; [apply SI_prio, Hs | exact Hk]. }
+    intro k. cbn [strms out closed with_has_data]. apply Hins. destruct (dep =? 0); [exact HI | apply Hins, HI].
   - intro k. pose proof (HI k) as Hk. cbn [strms out closed map_strms with_strms]. rewrite Hcl in Hk.
     apply SI_eof. exact Hk.
 Qed.
@@ -729,6 +821,27 @@ Proof.
     + exists [FData s (d0 :: data)]. split; [reflexivity|]. constructor; [exact Hd | constructor].
 Qed.
 
+Lemma unblock_or_crash_out t s : out (unblock_or_crash t s) = out t.
+Proof. unfold unblock_or_crash. destruct (s_inbufs _); [|reflexivity]. destruct (s_tree _); reflexivity. Qed.
+Lemma unblock_all_out t : out (unblock_all t) = out t.
+Proof. unfold unblock_all. destruct (existsb _ _); reflexivity. Qed.
+Lemma close_stream_out t s : out (close_stream t s) = out t.
+Proof. unfold close_stream. destruct (s_live _); reflexivity. Qed.
+
+Lemma client_out t c : out (client_step t c) = out t.
+Proof.
+  unfold client_step. destruct (closed t); [reflexivity|].
+  destruct c as [s prog|s n|n|n|s|s dep|s|s|]; try reflexivity.
+  - destruct (s_created (strms t s)); reflexivity.
+  - cbn [out with_has_data]. rewrite unblock_or_crash_out. reflexivity.
+  - cbn [out with_has_data]. rewrite unblock_all_out. reflexivity.
+  - rewrite unblock_all_out. reflexivity.
+  - cbn [out with_has_data]. rewrite unblock_or_crash_out.
+    destruct (s_inbufs _); cbn [out with_strm with_strms]; rewrite close_stream_out; reflexivity.
+  - cbn [out with_has_data]. destruct (s_tree (strms (if dep =? 0 then t else _) s)); cbn [out add_id with_strm with_strms];
+      destruct (dep =? 0); try reflexivity; destruct (s_tree (strms t dep)); reflexivity.
+Qed.
+
 Lemma step_frames t l : exists fs, writes t (step t l) fs /\ Forall (frame_ok t) fs.
 Proof.
   destruct l as [s| |p|c]; cbn [step].
@@ -741,12 +854,7 @@ Proof.
     + destruct (eligible (strms t s)) eqn:Hel; [apply send_data_frames; assumption|].
       exists []; split; [apply writes_nil; reflexivity | constructor].
     + destruct (existsb _ _); exists []; (split; [apply writes_nil; reflexivity | constructor]).
-  - exists []. split; [|constructor]. apply writes_nil. unfold client_step.
-    destruct (closed t); [reflexivity|].
-    destruct c as [s prog|s n|n|n|s|]; try reflexivity.
-    + destruct (s_created (strms t s)); reflexivity.
-    + unfold close_stream. cbn [strms with_strm with_strms]. rewrite upd_same. cbn [s_live set_h2open].
-      destruct (s_live (strms t s)); reflexivity.
+  - exists []. split; [|constructor]. apply writes_nil. apply client_out.
 Qed.
 
 (* ================================================================= no lost wake-up *)
@@ -758,7 +866,7 @@ Definition sendable (cl : bool) (cw : Z) (x : strm) : bool :=
   ((negb (is_nil (b_data (s_buf x))) && (0 <? s_win x) && (0 <? cw)) || sb_complete (s_buf x)).
 
 Record WInv (t : st) : Prop := {
-  w_dom : forall s, s_inbufs (strms t s) = true -> In s (ids t);
+  w_dom : forall s, s_tree (strms t s) = true -> In s (ids t);
   w_unblocked : forall s, sendable (closed t) (cwin t) (strms t s) = true -> s_blocked (strms t s) = false;
   w_wake : task t = TWaiting -> has_data t = false -> forall s, In s (ids t) -> eligible (strms t s) = false;
   w_closed : closed t = true -> task t = TWaiting -> has_data t = true;
@@ -795,7 +903,7 @@ Proof. unfold eligible. intros -> ->. reflexivity. Qed.
    keeps eligibility; and keeps "sendable -> unblocked" *)
 Lemma WInv_rewrite t s x hd :
   WInv t ->
-  s_inbufs x = s_inbufs (strms t s) ->
+  s_tree x = s_tree (strms t s) ->
   (hd = true \/ (hd = has_data t /\ (eligible x = true -> eligible (strms t s) = true))) ->
   (sendable (closed t) (cwin t) x = true -> s_blocked x = false) ->
   WInv (with_has_data (with_strm t s x) hd).
@@ -867,7 +975,7 @@ Proof.
         pose proof (w_unblocked _ HW1) as H2'.
         set (t1 := if s_live (strms t s) then with_has_data (with_strm t s (set_live (strms t s) false)) true else t) in *.
         rewrite Hx1. clearbody t1.
-        assert (Hsame : forall y, s_inbufs y = s_inbufs (strms t s) -> s_inbufs y = s_inbufs (strms t1 s)).
+        assert (Hsame : forall y, s_tree y = s_tree (strms t s) -> s_tree y = s_tree (strms t1 s)).
         { intros y Hy. rewrite Hx1. destruct (s_live (strms t s)); exact Hy. }
         destruct (s_live (strms t s)) eqn:Hlive; cbn [s_inbufs s_buf set_live];
           destruct (s_inbufs (strms t s)) eqn:Hin; destruct (b_complete (s_buf (strms t s))) eqn:?; cbn [andb negb];
@@ -900,7 +1008,7 @@ Proof.
       * (* OEnd *)
         unfold do_op. destruct (s_inbufs (strms t s)) eqn:Hin; cbn [negb]; [|w_plain HW H2 s].
         cbn [s_tree set_buf]. destruct (s_tree (strms t s)) eqn:Htree; cbn [negb]; [w_hd HW H2 s|].
-        pose proof (si_tree _ _ _ _ Hs). congruence.
+        pose proof (si_tree _ _ _ _ Hs Hin). congruence.
       * rewrite do_op_close. apply WInv_closing; assumption.
       * rewrite do_op_exit. destruct (s_live (strms t s)); [apply WInv_closing; assumption | w_plain HW H2 s].
   - destruct (b_paused (s_buf (strms t s))) eqn:Hp; [|exact HW]. w_plain HW H2 s.
@@ -922,15 +1030,17 @@ Proof.
   intros HS HW Hel Hcl Htask. pose proof (HS s) as Hs. destruct HW as [H1 H2 H3 H4 H5].
   assert (Hblk : s_blocked (strms t s) = false).
   { unfold eligible in Hel. destruct (s_tree (strms t s)), (s_blocked (strms t s)); cbn in Hel; congruence. }
+  assert (Htree : s_tree (strms t s) = true).
+  { unfold eligible in Hel. destruct (s_tree (strms t s)); [reflexivity | discriminate]. }
+  (* forgetting the stream *)
+  assert (Hforget : forall y, WInv (with_strm t s (forget y))).
+  { intro y. constructor; cbn [strms ids has_data closed cwin task maxf with_strm with_strms]; try assumption;
+      try (rewrite Htask; discriminate).
+    - intros k. unfold upd. destruct (Z.eqb_spec k s); [subst; cbn; discriminate | apply H1].
+    - intros k. unfold upd. destruct (Z.eqb_spec k s); [subst; rewrite sendable_gone by reflexivity; discriminate | apply H2]. }
   unfold send_data.
-  destruct (s_h2open (strms t s)) eqn:Hopen; cbn [negb].
-  2:{ destruct (s_inbufs (strms t s)) eqn:Hin.
-      - constructor; cbn [strms ids has_data closed cwin task maxf with_strm with_strms]; try assumption; try (rewrite Htask; discriminate).
-        + intros k. unfold upd. destruct (Z.eqb_spec k s); [subst; cbn; discriminate | apply H1].
-        + intros k. unfold upd. destruct (Z.eqb_spec k s); [subst; rewrite sendable_gone by reflexivity; discriminate | apply H2].
-      - constructor; cbn; try assumption; try discriminate. }
-  destruct (s_inbufs (strms t s)) eqn:Hin; cbn [negb].
-  2:{ constructor; cbn; try assumption; try discriminate. }
+  destruct (s_h2open (strms t s)) eqn:Hopen; cbn [negb]; [|apply Hforget].
+  destruct (s_inbufs (strms t s)) eqn:Hin; cbn [negb]; [|apply Hforget].
   destruct (sb_pop (s_buf (strms t s)) (chunk_size t (strms t s))) as [data b] eqn:Hpop.
   destruct data as [|d0 data].
   - destruct (pop_nothing _ _ _ _ Hpop eq_refl) as [Hsame Hwhy].
@@ -939,7 +1049,7 @@ Proof.
        try (rewrite Htask; discriminate)).
     + intros k. unfold upd. destruct (Z.eqb_spec k s); [subst; cbn; discriminate | apply H1].
     + intros k. unfold upd. destruct (Z.eqb_spec k s); [subst; rewrite sendable_gone by reflexivity; discriminate | apply H2].
-    + intros k. unfold upd. destruct (Z.eqb_spec k s); [subst; intros _; apply H1; exact Hin | apply H1].
+    + intros k. unfold upd. destruct (Z.eqb_spec k s); [subst; intros _; apply H1; exact Htree | apply H1].
     + intros k. unfold upd. destruct (Z.eqb_spec k s); [subst | apply H2].
       intro Hsd. exfalso. unfold sendable in Hsd. si_simpl. rewrite Hc, orb_false_r, Hsame in Hsd.
       destruct Hwhy as [Hnil | Hchunk].
@@ -955,7 +1065,7 @@ Proof.
     + intros k. unfold upd. destruct (Z.eqb_spec k s); [subst; cbn; discriminate | apply H1].
     + intros k. unfold upd. destruct (Z.eqb_spec k s); [subst; rewrite sendable_gone by reflexivity; discriminate |].
       intro Hsd. apply H2. eapply sendable_mono; [exact Hle | exact Hsd].
-    + intros k. unfold upd. destruct (Z.eqb_spec k s); [subst; intros _; apply H1; exact Hin | apply H1].
+    + intros k. unfold upd. destruct (Z.eqb_spec k s); [subst; intros _; apply H1; exact Htree | apply H1].
     + intros k. unfold upd. destruct (Z.eqb_spec k s); [subst; intros _; exact Hblk |].
       intro Hsd. apply H2. eapply sendable_mono; [exact Hle | exact Hsd].
 Qed.
@@ -978,72 +1088,251 @@ Proof.
       * intros Hc. congruence.
 Qed.
 
-Lemma WInv_map t g hd :
-  WInv t ->
-  (forall x, s_inbufs (g x) = s_inbufs x) ->
-  hd = true ->
-  (forall k, sendable (closed t) (cwin t) (g (strms t k)) = true -> s_blocked (g (strms t k)) = false) ->
-  WInv (with_has_data (map_strms t g) hd).
+(* the part of WInv that does not depend on the wake-up flag *)
+Record WBase (t : st) : Prop := {
+  wb_dom : forall s, s_tree (strms t s) = true -> In s (ids t);
+  wb_unblocked : forall s, sendable (closed t) (cwin t) (strms t s) = true -> s_blocked (strms t s) = false;
+  wb_maxf : 0 < maxf t
+}.
+Lemma WInv_base t : WInv t -> WBase t.
+Proof. intros [H1 H2 H3 H4 H5]. constructor; assumption. Qed.
+Lemma WBase_hd t : WBase t -> WInv (with_has_data t true).
+Proof. intros [H1 H2 H3]. constructor; cbn; try assumption; try (intros; discriminate); auto. Qed.
+Lemma WBase_hd' t : WBase t -> has_data t = true -> WInv t.
+Proof. intros [H1 H2 H3] Hd. constructor; try assumption; intros; congruence. Qed.
+
+(* priority.unblock of a registered stream, whatever was changed on it before *)
+Lemma WBase_set_and_unblock t s x :
+  WBase t -> s_tree x = s_tree (strms t s) -> (s_inbufs x = true -> s_tree x = true) ->
+  WBase (unblock_or_crash (with_strm t s x) s).
 Proof.
-  intros [H1 H2 H3 H4 H5] Hin -> Hsb. constructor; cbn; try assumption; try discriminate; auto.
-  intros k. rewrite Hin. apply H1.
+  intros [H1 H2 H3] Htr Hit. unfold unblock_or_crash. cbn [strms with_strm with_strms]. rewrite upd_same.
+  destruct (s_inbufs x) eqn:Hin.
+  - rewrite (Hit eq_refl).
+    constructor; cbn [strms ids closed cwin maxf with_strm with_strms]; try assumption.
+    + intros k. unfold upd. destruct (Z.eqb_spec k s); [subst; si_simpl; intros _; apply H1; rewrite <- Htr; auto|].
+      destruct (Z.eqb_spec k s); [contradiction | apply H1].
+    + intros k. unfold upd. destruct (Z.eqb_spec k s); [subst; intros _; reflexivity|].
+      destruct (Z.eqb_spec k s); [contradiction | apply H2].
+  - constructor; cbn [strms ids closed cwin maxf with_strm with_strms]; try assumption.
+    + intros k. unfold upd. destruct (Z.eqb_spec k s); [subst; rewrite Htr; apply H1 | apply H1].
+    + intros k. unfold upd. destruct (Z.eqb_spec k s); [subst|apply H2].
+      intro Hsd. rewrite sendable_gone in Hsd by exact Hin. discriminate.
+Qed.
+
+Lemma WBase_unblock t s :
+  WBase t -> (s_inbufs (strms t s) = true -> s_tree (strms t s) = true) -> WBase (unblock_or_crash t s).
+Proof.
+  intros [H1 H2 H3] Hit. unfold unblock_or_crash.
+  destruct (s_inbufs (strms t s)) eqn:Hin; [|constructor; assumption].
+  rewrite (Hit eq_refl).
+  constructor; cbn [strms ids closed cwin maxf with_strm with_strms]; try assumption.
+  - intros k. unfold upd. destruct (Z.eqb_spec k s); [subst; si_simpl; apply H1 | apply H1].
+  - intros k. unfold upd. destruct (Z.eqb_spec k s); [subst; intros _; reflexivity | apply H2].
+Qed.
+
+(* unblock every registered stream: nothing is required of "sendable -> unblocked" beforehand *)
+Lemma WBase_unblock_all t :
+  (forall s, s_tree (strms t s) = true -> In s (ids t)) -> 0 < maxf t -> WBase (unblock_all t).
+Proof.
+  intros H1 H3. unfold unblock_all.
+  assert (H : WBase (map_strms t (fun x => if s_inbufs x then set_blocked x false else x))).
+  { constructor; cbn [strms ids closed cwin maxf map_strms with_strms]; try assumption.
+    - intros k. destruct (s_inbufs (strms t k)); si_simpl; apply H1.
+    - intros k. destruct (s_inbufs (strms t k)) eqn:Hin; [intros _; reflexivity|].
+      intro Hsd. rewrite sendable_gone in Hsd by exact Hin. discriminate. }
+  destruct (existsb _ _); [|exact H]. destruct H as [A B C]. constructor; cbn; assumption.
+Qed.
+
+(* insertion of a stream in the priority tree by a PRIORITY frame *)
+Definition prio_insert (t : st) (k : Z) : st :=
+  let x := strms t k in
+  if s_tree x then t
+  else add_id (with_strm t k
+         {| s_buf := s_buf x; s_inbufs := s_inbufs x; s_live := s_live x; s_tree := true; s_blocked := true;
+            s_win := s_win x; s_h2open := s_h2open x; s_pc := s_pc x; s_prog := s_prog x;
+            s_pushed := s_pushed x; s_forced := s_forced x; s_created := s_created x |}) k.
+
+Lemma In_add_id t s k : In k (ids (add_id t s)) <-> k = s \/ In k (ids t).
+Proof.
+  cbn [ids add_id]. destruct (existsb (Z.eqb s) (ids t)) eqn:He.
+  - split; [auto|]. intros [->|H]; [|exact H]. apply existsb_exists in He as (y & Hy & Hys). apply Z.eqb_eq in Hys. subst. exact Hy.
+  - cbn [In]. split; intros [H|H]; auto.
+Qed.
+
+Lemma WBase_prio_insert t k :
+  WBase t -> (s_inbufs (strms t k) = true -> s_tree (strms t k) = true) -> WBase (prio_insert t k).
+Proof.
+  intros [H1 H2 H3] Hit. unfold prio_insert. destruct (s_tree (strms t k)) eqn:Htr; [constructor; assumption|].
+  assert (Hin : s_inbufs (strms t k) = false) by (destruct (s_inbufs (strms t k)); [specialize (Hit eq_refl); discriminate | reflexivity]).
+  constructor; cbn [strms closed cwin maxf add_id with_strm with_strms]; try assumption.
+  - intros j Hj. apply In_add_id. revert Hj. cbn [strms with_strm with_strms]. unfold upd.
+    destruct (Z.eqb_spec j k); [left; assumption | intro Hj; right; apply H1; exact Hj].
+  - intros j. unfold upd. destruct (Z.eqb_spec j k); [subst|apply H2].
+    intro Hsd. rewrite sendable_gone in Hsd by exact Hin. discriminate.
+Qed.
+
+Lemma SInv_tree t : SInv t -> forall s, s_inbufs (strms t s) = true -> s_tree (strms t s) = true.
+Proof. intros HS s. apply (si_tree _ _ _ _ (HS s)). Qed.
+
+Definition reset_pre (t : st) (s : Z) : st :=
+  let t1 := close_stream (with_strm t s (set_h2open (strms t s) false)) s in
+  if s_inbufs (strms t1 s) then with_strm t1 s (force_close (strms t1 s)) else t1.
+
+Lemma SInv_reset_pre t s : SInv t -> SInv (reset_pre t s).
+Proof.
+  intros HI. unfold reset_pre. cbn zeta.
+  intro k. pose proof (HI s) as Hs. pose proof (HI k) as Hk. unfold close_stream.
+  cbn [strms with_strm with_strms]. rewrite upd_same.
+  cbn [s_live set_h2open]. destruct (s_live (strms t s)); cbn [strms with_strm with_strms with_has_data];
+    rewrite ?upd_same; cbn [s_inbufs set_live set_h2open]; destruct (s_inbufs (strms t s)) eqn:Hin; updc k s;
+    try exact Hk; rewrite ?upd_same; rewrite ?Z.eqb_refl.
+  + apply (SI_force_rst _ _ _ (set_live (strms t s) false)); [exact Hin|]. apply SI_set_live, Hs.
+  + apply SI_set_live. apply SI_set_h2closed'; assumption.
+  + apply (SI_force_rst _ _ _ (strms t s)); [exact Hin|]. exact Hs.
+  + apply SI_set_h2closed'; assumption.
+Qed.
+
+Lemma WInv_reset_pre t s : WInv t -> WInv (reset_pre t s).
+Proof.
+  intros HW. unfold reset_pre. cbn zeta.
+  assert (HW0 : WInv (with_strm t s (set_h2open (strms t s) false))).
+  { rewrite with_strm_as_rewrite. apply WInv_rewrite; [exact HW | reflexivity | w_elig |].
+    intro Hx. rewrite sendable_h2closed in Hx by reflexivity. discriminate. }
+  set (t0 := with_strm t s (set_h2open (strms t s) false)) in *.
+  assert (Hx0 : strms t0 s = set_h2open (strms t s) false) by (unfold t0; cbn; apply upd_same).
+  clearbody t0.
+  assert (HW1 : WInv (close_stream t0 s)).
+  { unfold close_stream. destruct (s_live (strms t0 s)); [|exact HW0].
+    apply WInv_rewrite; [exact HW0 | reflexivity | left; reflexivity |].
+    intro Hx. rewrite Hx0 in Hx. rewrite sendable_h2closed in Hx by reflexivity. discriminate. }
+  assert (Hx1 : s_h2open (strms (close_stream t0 s) s) = false).
+  { unfold close_stream. destruct (s_live (strms t0 s)); [cbn; rewrite upd_same|]; rewrite Hx0; reflexivity. }
+  set (t1 := close_stream t0 s) in *. clearbody t1.
+  destruct (s_inbufs (strms t1 s)); [|exact HW1].
+  rewrite with_strm_as_rewrite. apply WInv_rewrite; [exact HW1 | reflexivity | w_elig |].
+  intro Hx. rewrite sendable_h2closed in Hx by exact Hx1. discriminate.
+Qed.
+
+Lemma prio_insert_tree t j k :
+  (s_inbufs (strms t k) = true -> s_tree (strms t k) = true) ->
+  s_inbufs (strms (prio_insert t j) k) = true -> s_tree (strms (prio_insert t j) k) = true.
+Proof.
+  intro H. unfold prio_insert. destruct (s_tree (strms t j)) eqn:Htr; [exact H|].
+  cbn [strms add_id with_strm with_strms]. unfold upd. destruct (Z.eqb_spec k j); [intros _; reflexivity | exact H].
 Qed.
 
 Lemma WInv_client t c : SInv t -> WInv t -> WInv (client_step t c).
 Proof.
-  intros HS HW. unfold client_step. destruct (closed t) eqn:Hcl; [exact HW|].
-  pose proof (w_unblocked _ HW) as H2.
-  destruct c as [s prog|s n|n|n|s|].
-  - destruct (s_created (strms t s)) eqn:Hcr; [exact HW|].
-    destruct HW as [H1 H2' H3 H4 H5].
-    constructor; cbn [strms ids has_data closed cwin task maxf with_strm with_strms]; try assumption.
-    + intros k. unfold upd. destruct (Z.eqb_spec k s); [subst; intros _; left; reflexivity | intro; right; apply H1; assumption].
-    + intros k. unfold upd. destruct (Z.eqb_spec k s); [subst; intro Hx; unfold sendable in Hx; cbn in Hx; rewrite ?andb_false_r in Hx; discriminate | apply H2'].
-    + intros Ht Hd k [<-|Hk]; unfold upd; [rewrite Z.eqb_refl; reflexivity|].
-      destruct (Z.eqb_spec k s); [reflexivity | apply H3; assumption].
-  - destruct (s_inbufs (set_win (strms t s) (s_win (strms t s) + n))) eqn:Hin; si_simpl.
-    + apply WInv_rewrite; [exact HW | reflexivity | left; reflexivity | intros _; reflexivity].
-    + apply WInv_rewrite; [exact HW | reflexivity | left; reflexivity |].
-      intro H. rewrite sendable_gone in H by exact Hin. discriminate.
+  intros HS HW. pose proof (SInv_client t c HS) as HS'. revert HS'.
+  unfold client_step. destruct (closed t) eqn:Hcl; [intros _; exact HW|].
+  pose proof (WInv_base _ HW) as HB.
+  destruct c as [s prog|s n|n|n|s|s dep|s|s|]; intro HS'; try exact HW.
+  - (* COpen *)
+    destruct (s_created (strms t s)) eqn:Hcr; [exact HW|].
+    destruct HW as [H1 H2 H3 H4 H5].
+    assert (Hnin : s_inbufs (strms t s) = false) by (destruct (si_fresh _ _ _ _ (HS s) Hcr) as (_ & _ & _ & Hx); exact Hx).
+    constructor; cbn [strms has_data closed cwin task maxf add_id with_strm with_strms]; try assumption.
+    + intros k Hk. apply In_add_id. revert Hk. cbn [strms with_strm with_strms]. unfold upd.
+      destruct (Z.eqb_spec k s); [left; assumption | intro Hk; right; apply H1; exact Hk].
+    + intros k. unfold upd. destruct (Z.eqb_spec k s); [subst|apply H2].
+      intro Hx. unfold sendable in Hx; cbn in Hx; rewrite ?andb_false_r in Hx; discriminate.
+    + intros Ht Hd k Hk. apply In_add_id in Hk. cbn [strms with_strm with_strms]. unfold upd.
+      destruct (Z.eqb_spec k s); [subst|destruct Hk as [Hk|Hk]; [contradiction | apply H3; assumption]].
+      unfold eligible. cbn [s_tree s_blocked andb].
+      destruct (s_tree (strms t s)) eqn:Htr; [|reflexivity].
+      pose proof (H3 Ht Hd s (H1 s Htr)) as He. unfold eligible in He. rewrite Htr in He. exact He.
+  - (* CWin *)
+    apply WBase_hd. apply WBase_set_and_unblock; [exact HB | reflexivity|].
+    si_simpl. apply (SInv_tree _ HS).
   - (* CConnWin *)
-    destruct HW as [H1 H2' H3 H4 H5].
-    constructor; cbn [strms ids has_data closed cwin task maxf with_has_data with_strms with_cwin unblock_all map_strms];
-      try assumption; try (intros; discriminate); auto.
-    + intros k. destruct (s_inbufs (strms t k)) eqn:Hin; [intros _; apply H1; exact Hin | rewrite Hin; discriminate].
-    + intros k. destruct (s_inbufs (strms t k)) eqn:Hin; [intros _; reflexivity|].
-      intro Hx. rewrite sendable_gone in Hx by exact Hin. discriminate.
+    apply WBase_hd. apply WBase_unblock_all; [apply (wb_dom _ HB) | apply (wb_maxf _ HB)].
   - (* CInitialWindow *)
-    destruct HW as [H1 H2' H3 H4 H5].
-    constructor; cbn [strms ids has_data closed cwin task maxf with_has_data with_strms with_cwin unblock_all map_strms];
-      try assumption; try (intros; discriminate); auto.
-    + intros k. destruct (s_h2open (strms t k)); si_simpl;
-        (destruct (s_inbufs (strms t k)) eqn:Hin; [intros _; apply H1; exact Hin | si_simpl; rewrite Hin; discriminate]).
-    + intros k. destruct (s_h2open (strms t k)); si_simpl;
-        (destruct (s_inbufs (strms t k)) eqn:Hin; [intros _; reflexivity|]);
-        intro Hx; rewrite sendable_gone in Hx by (si_simpl; exact Hin); discriminate.
+    apply WBase_hd'; [|unfold unblock_all; destruct (existsb _ _); reflexivity].
+    apply WBase_unblock_all; cbn [strms ids maxf map_strms with_strms]; [|apply (wb_maxf _ HB)].
+    intros k. destruct (s_h2open (strms t k)); si_simpl; apply (wb_dom _ HB).
   - (* CReset *)
-    assert (HW0 : WInv (with_strm t s (set_h2open (strms t s) false))).
-    { rewrite with_strm_as_rewrite. apply WInv_rewrite; [exact HW | reflexivity | w_elig |].
-      intro Hx. rewrite sendable_h2closed in Hx by reflexivity. discriminate. }
-    set (t0 := with_strm t s (set_h2open (strms t s) false)) in *.
-    assert (Hx0 : strms t0 s = set_h2open (strms t s) false) by (unfold t0; cbn; apply upd_same).
-    clearbody t0.
-    assert (HW1 : WInv (close_stream t0 s)).
-    { unfold close_stream. destruct (s_live (strms t0 s)); [|exact HW0].
-      apply WInv_rewrite; [exact HW0 | reflexivity | left; reflexivity |].
-      intro Hx. rewrite Hx0 in Hx. rewrite sendable_h2closed in Hx by reflexivity. discriminate. }
-    assert (Hx1 : s_h2open (strms (close_stream t0 s) s) = false).
-    { unfold close_stream. destruct (s_live (strms t0 s)); [cbn; rewrite upd_same|]; rewrite Hx0; reflexivity. }
-    set (t1 := close_stream t0 s) in *. clearbody t1.
-    apply WInv_rewrite; [exact HW1 | destruct (s_inbufs (strms t1 s)) eqn:E; si_simpl; congruence | left; reflexivity |].
-    destruct (s_inbufs (strms t1 s)) eqn:Hin; [intros _; reflexivity|].
-    intro Hx. rewrite sendable_gone in Hx by exact Hin. discriminate.
+    apply WBase_hd. change (WBase (unblock_or_crash (reset_pre t s) s)). apply WBase_unblock.
+    + apply WInv_base, WInv_reset_pre, HW.
+    + apply (SInv_tree _ (SInv_reset_pre t s HS)).
+  - (* CPriority *)
+    apply WBase_hd. change (WBase (prio_insert (if dep =? 0 then t else prio_insert t dep) s)).
+    destruct (dep =? 0).
+    + apply WBase_prio_insert; [exact HB | apply (SInv_tree _ HS)].
+    + apply WBase_prio_insert; [apply WBase_prio_insert; [exact HB | apply (SInv_tree _ HS)]|].
+      apply prio_insert_tree. apply (SInv_tree _ HS).
   - (* CEof *)
-    destruct HW as [H1 H2' H3 H4 H5].
+    destruct HW as [H1 H2 H3 H4 H5].
     constructor; cbn [strms ids has_data closed cwin task maxf with_has_data with_strms map_strms];
       try assumption; try (intros; discriminate); auto.
-    + intros k. si_simpl. destruct (s_inbufs (strms t k)) eqn:Hin; si_simpl; [intros _; apply H1; exact Hin | rewrite Hin; discriminate].
+    + intros k. si_simpl. destruct (s_inbufs (strms t k)) eqn:Hin; si_simpl; apply H1.
     + intros k Hx. rewrite sendable_closed in Hx. discriminate.
+Qed.
+
+(* ================================================================= C04: the reader never crashes *)
+Lemma reader_ok_app t s : reader_ok (app_step t s) = reader_ok t.
+Proof.
+  unfold app_step. destruct (s_pc (strms t s)); try reflexivity.
+  - destruct (s_prog (strms t s)) as [|o rest]; [reflexivity|]. unfold do_op, close_stream.
+    destruct o; repeat (match goal with |- context [if ?b then _ else _] => destruct b end); try reflexivity;
+      try (destruct (sb_push _ _) as [[? ?]|]; reflexivity).
+  - destruct (b_paused _); reflexivity.
+  - destruct (b_is_empty _); reflexivity.
+Qed.
+
+Lemma reader_ok_send_data t s : reader_ok (send_data t s) = reader_ok t.
+Proof.
+  unfold send_data. destruct (s_h2open (strms t s)); cbn [negb]; [|reflexivity].
+  destruct (s_inbufs (strms t s)); cbn [negb]; [|reflexivity].
+  destruct (sb_pop _ _) as [data b]. destruct data; destruct (sb_complete b); reflexivity.
+Qed.
+
+Lemma unblock_or_crash_ok t s :
+  (s_inbufs (strms t s) = true -> s_tree (strms t s) = true) -> reader_ok (unblock_or_crash t s) = reader_ok t.
+Proof.
+  intro H. unfold unblock_or_crash. destruct (s_inbufs (strms t s)); [|reflexivity]. rewrite (H eq_refl). reflexivity.
+Qed.
+
+Lemma unblock_all_ok t :
+  (forall s, s_inbufs (strms t s) = true -> s_tree (strms t s) = true) -> reader_ok (unblock_all t) = reader_ok t.
+Proof.
+  intro H. unfold unblock_all.
+  destruct (existsb (fun s => s_inbufs (strms t s) && negb (s_tree (strms t s))) (ids t)) eqn:He; [|reflexivity].
+  apply existsb_exists in He as (s & _ & Hs). apply andb_true_iff in Hs as [Hi Ht]. rewrite (H s Hi) in Ht. discriminate.
+Qed.
+
+Lemma reader_ok_step t l : SInv t -> reader_ok (step t l) = reader_ok t.
+Proof.
+  intro HS. destruct l as [s| |p|c]; cbn [step].
+  - apply reader_ok_app.
+  - unfold send_wake. destruct (task t); try reflexivity. destruct (has_data t); reflexivity.
+  - unfold send_iter. destruct (task t); try reflexivity. destruct (closed t); [reflexivity|].
+    destruct p as [s|]; [|destruct (existsb _ _); reflexivity].
+    destruct (eligible (strms t s)); [apply reader_ok_send_data | reflexivity].
+  - unfold client_step. destruct (closed t) eqn:Hcl; [reflexivity|].
+    destruct c as [s prog|s n|n|n|s|s dep|s|s|]; try reflexivity.
+    + destruct (s_created (strms t s)); reflexivity.
+    + cbn [reader_ok with_has_data]. rewrite unblock_or_crash_ok; [reflexivity|].
+      cbn [strms with_strm with_strms]. rewrite upd_same. si_simpl. apply (SInv_tree _ HS).
+    + cbn [reader_ok with_has_data]. rewrite unblock_all_ok; [reflexivity|]. apply (SInv_tree _ HS).
+    + rewrite unblock_all_ok; [reflexivity|]. cbn [strms map_strms with_strms].
+      intro k. destruct (s_h2open (strms t k)); si_simpl; apply (SInv_tree _ HS).
+    + change (reader_ok (with_has_data (unblock_or_crash (reset_pre t s) s) true) = reader_ok t).
+      cbn [reader_ok with_has_data]. rewrite unblock_or_crash_ok by (apply (SInv_tree _ (SInv_reset_pre t s HS))).
+      unfold reset_pre, close_stream. cbn [strms with_strm with_strms]. rewrite upd_same. cbn [s_live set_h2open].
+      destruct (s_live (strms t s)); cbn [strms with_strm with_strms with_has_data]; rewrite ?upd_same;
+        cbn [s_inbufs set_live set_h2open]; destruct (s_inbufs (strms t s)); reflexivity.
+    + change (reader_ok (with_has_data (prio_insert (if dep =? 0 then t else prio_insert t dep) s) true) = reader_ok t).
+      cbn [reader_ok with_has_data]. unfold prio_insert.
+      destruct (dep =? 0); repeat (match goal with |- context [if ?b then _ else _] => destruct b end); reflexivity.
+Qed.
+
+Theorem reader_never_crashes cw mf iw0 ls : reader_ok (run (init cw mf iw0) ls) = true.
+Proof.
+  assert (H : forall ls t, SInv t -> reader_ok (run t ls) = reader_ok t).
+  { clear. induction ls as [|l r IH]; intros t HS; [reflexivity|].
+    cbn [run fold_left]. fold (run (step t l) r). rewrite IH by (apply SInv_step, HS). apply reader_ok_step, HS. }
+  rewrite H by apply SInv_init. reflexivity.
 Qed.
 
 Lemma WInv_step t l : SInv t -> WInv t -> WInv (step t l).
@@ -1113,8 +1402,8 @@ Proof.
   pose proof reach_W as HW. pose proof (w_unblocked _ HW s Hs) as Hb.
   assert (Hin : s_inbufs (strms t s) = true).
   { unfold sendable in Hs. destruct (s_inbufs (strms t s)); [reflexivity | discriminate]. }
-  pose proof (w_wake _ HW Ht Hd s (w_dom _ HW s Hin)) as He.
-  unfold eligible in He. rewrite <- (si_tree _ _ _ _ (reach_S s)), Hin, Hb in He. discriminate.
+  pose proof (w_wake _ HW Ht Hd s (w_dom _ HW s (si_tree _ _ _ _ (reach_S s) Hin))) as He.
+  unfold eligible in He. rewrite (si_tree _ _ _ _ (reach_S s) Hin), Hb in He. discriminate.
 Qed.
 
 (* once the connection is closed the send task is not left asleep *)
@@ -1166,6 +1455,31 @@ Proof. induction ls as [|l r IH]; intro t; cbn; [exact I | split; [apply step_fr
 (* the connection window is never overdrawn *)
 Definition credit_ok (l : label) : Prop := match l with LClient (CConnWin n) => 0 <= n | _ => True end.
 
+Lemma unblock_or_crash_cwin t s : cwin (unblock_or_crash t s) = cwin t.
+Proof. unfold unblock_or_crash. destruct (s_inbufs _); [|reflexivity]. destruct (s_tree _); reflexivity. Qed.
+Lemma unblock_all_cwin t : cwin (unblock_all t) = cwin t.
+Proof. unfold unblock_all. destruct (existsb _ _); reflexivity. Qed.
+Lemma close_stream_cwin t s : cwin (close_stream t s) = cwin t.
+Proof. unfold close_stream. destruct (s_live _); reflexivity. Qed.
+Lemma prio_insert_cwin t k : cwin (prio_insert t k) = cwin t.
+Proof. unfold prio_insert. destruct (s_tree _); reflexivity. Qed.
+
+Lemma client_cwin t c :
+  cwin (client_step t c) = if closed t then cwin t else match c with CConnWin n => cwin t + n | _ => cwin t end.
+Proof.
+  unfold client_step. destruct (closed t); [reflexivity|].
+  destruct c as [s prog|s n|n|n|s|s dep|s|s|]; try reflexivity.
+  - destruct (s_created (strms t s)); reflexivity.
+  - cbn [cwin with_has_data]. rewrite unblock_or_crash_cwin. reflexivity.
+  - cbn [cwin with_has_data]. rewrite unblock_all_cwin. reflexivity.
+  - rewrite unblock_all_cwin. reflexivity.
+  - change (cwin (with_has_data (unblock_or_crash (reset_pre t s) s) true) = cwin t).
+    cbn [cwin with_has_data]. rewrite unblock_or_crash_cwin. unfold reset_pre. cbn zeta.
+    destruct (s_inbufs _); cbn [cwin with_strm with_strms]; rewrite close_stream_cwin; reflexivity.
+  - change (cwin (with_has_data (prio_insert (if dep =? 0 then t else prio_insert t dep) s) true) = cwin t).
+    cbn [cwin with_has_data]. rewrite prio_insert_cwin. destruct (dep =? 0); [reflexivity | apply prio_insert_cwin].
+Qed.
+
 Lemma cwin_step t l : credit_ok l -> 0 <= cwin t -> 0 <= cwin (step t l).
 Proof.
   intros Hl H0. destruct (step_frames t l) as (fs & Hw & Hok).
@@ -1185,12 +1499,7 @@ Proof.
     destruct (sb_pop _ _) as [data b] eqn:Hpop. pop_facts. unfold chunk_size in Hlen.
     destruct data as [|d0 data]; destruct (sb_complete b); cbn [cwin emit with_strm with_strms with_cwin]; try exact H0;
       (assert (0 < zlen (d0 :: data)) by (clear; unfold zlen; cbn [length]; lia); clear - Hlen H H0; lia).
-  - unfold client_step. destruct (closed t); [exact H0|].
-    destruct c as [s prog|s n|n|n|s|]; cbn [credit_ok] in Hl; try exact H0.
-    + destruct (s_created _); exact H0.
-    + cbn. lia.
-    + unfold close_stream. cbn [strms with_strm with_strms]. rewrite upd_same. cbn [s_live set_h2open].
-      destruct (s_live (strms t s)); exact H0.
+  - rewrite client_cwin. destruct (closed t); [exact H0|]. destruct c; cbn [credit_ok] in Hl; try exact H0. lia.
 Qed.
 
 Theorem connection_window_never_overdrawn ls : forall t,
@@ -1233,39 +1542,58 @@ Theorem send_iteration_decreases t s :
 Proof.
   intros HS HW Ht Hcl Hel. unfold send_iter. rewrite Ht, Hcl, Hel.
   assert (Htree : s_tree (strms t s) = true) by (unfold eligible in Hel; destruct (s_tree (strms t s)); [reflexivity | discriminate]).
-  assert (Hin : s_inbufs (strms t s) = true) by (rewrite (si_tree _ _ _ _ (HS s)); exact Htree).
-  pose proof (w_dom _ HW s Hin) as Hid.
+  pose proof (w_dom _ HW s Htree) as Hid.
   assert (Hw1 : weight (strms t s) = zlen (b_data (s_buf (strms t s))) + 1) by (unfold weight; rewrite Hel; reflexivity).
-  unfold send_data. rewrite Hin.
+  assert (Hforget : forall y, zlen (b_data (s_buf y)) <= zlen (b_data (s_buf (strms t s))) ->
+                    measure (strms (with_strm t s (forget y))) (ids (with_strm t s (forget y))) < measure (strms t) (ids t)).
+  { intros y Hy. cbn [strms ids with_strm with_strms]. apply measure_upd; [|exact Hid].
+    rewrite Hw1. unfold weight, eligible. si_simpl. cbn [andb]. clear - Hy. lia. }
+  unfold send_data.
   destruct (s_h2open (strms t s)) eqn:Hopen; cbn [negb].
-  - destruct (sb_pop _ _) as [data b] eqn:Hpop. pop_facts.
-    assert (Hrest : zlen (b_data (s_buf (strms t s))) = zlen data + zlen (b_data b)) by (rewrite Hsplit, zlen_app; reflexivity).
-    clear Hsplit Hlen Hle Hpaused Hcompl Hempty.
-    destruct data as [|d0 data].
-    + rewrite zlen_nil in Hrest.
-      destruct (sb_complete b); cbn [strms ids emit with_strm with_strms with_cwin];
-        (apply measure_upd; [|exact Hid]); rewrite Hw1; unfold weight, eligible; si_simpl; rewrite ?Htree; cbn [andb negb];
-        clear - Hrest; lia.
-    + assert (Hpos : 0 < zlen (d0 :: data)) by (clear; unfold zlen; cbn [length]; lia).
-      destruct (sb_complete b); cbn [strms ids emit with_strm with_strms with_cwin];
-        (apply measure_upd; [|exact Hid]); rewrite Hw1; unfold weight, eligible; si_simpl; rewrite ?Htree; cbn [andb negb].
-      * clear - Hrest Hpos; lia.
-      * unfold eligible in Hel. rewrite Htree in Hel. cbn [andb] in Hel. rewrite Hel. clear - Hrest Hpos; lia.
-  - cbn [strms ids with_strm with_strms]. apply measure_upd; [|exact Hid].
-    rewrite Hw1. unfold weight, eligible. si_simpl. pose proof (zlen_nonneg (b_data (s_buf (strms t s)))) as Hn.
-    cbn [andb]. change (zlen (@nil N)) with 0. clear - Hn. lia.
+  2:{ apply Hforget. destruct (s_inbufs (strms t s)); si_simpl; [|lia].
+      change (zlen (@nil N)) with 0. apply zlen_nonneg. }
+  destruct (s_inbufs (strms t s)) eqn:Hin; cbn [negb]; [|apply Hforget; lia].
+  destruct (sb_pop _ _) as [data b] eqn:Hpop. pop_facts.
+  assert (Hrest : zlen (b_data (s_buf (strms t s))) = zlen data + zlen (b_data b)) by (rewrite Hsplit, zlen_app; reflexivity).
+  clear Hsplit Hlen Hle Hpaused Hcompl Hempty.
+  destruct data as [|d0 data].
+  - rewrite zlen_nil in Hrest.
+    destruct (sb_complete b); cbn [strms ids emit with_strm with_strms with_cwin];
+      (apply measure_upd; [|exact Hid]); rewrite Hw1; unfold weight, eligible; si_simpl; rewrite ?Htree; cbn [andb negb];
+      clear - Hrest; lia.
+  - assert (Hpos : 0 < zlen (d0 :: data)) by (clear; unfold zlen; cbn [length]; lia).
+    destruct (sb_complete b); cbn [strms ids emit with_strm with_strms with_cwin];
+      (apply measure_upd; [|exact Hid]); rewrite Hw1; unfold weight, eligible; si_simpl; rewrite ?Htree; cbn [andb negb].
+    + clear - Hrest Hpos; lia.
+    + unfold eligible in Hel. rewrite Htree in Hel. cbn [andb] in Hel. rewrite Hel. clear - Hrest Hpos; lia.
 Qed.
 
 (* ---- isolation: what happens on stream s leaves every other stream's state alone *)
 Definition touches (l : label) (s : Z) : Prop :=
   match l with
   | LApp k | LSendIter (Some k) | LClient (COpen k _) | LClient (CWin k _) | LClient (CReset k) => k = s
-  | LSendWake | LSendIter None => False
+  | LClient (CPriority k dep) => k = s \/ dep = s
+  | LSendWake | LSendIter None | LClient (CData _) | LClient (CEnded _) => False
   | LClient (CConnWin _) | LClient (CInitialWindow _) | LClient CEof => True
   end.
 
 Lemma upd_neq f s x k : k <> s -> upd f s x k = f k.
 Proof. apply upd_other. Qed.
+
+Lemma unblock_or_crash_other t s k : k <> s -> strms (unblock_or_crash t s) k = strms t k.
+Proof.
+  intro Hk. unfold unblock_or_crash. destruct (s_inbufs _); [|reflexivity]. destruct (s_tree _); [|reflexivity].
+  cbn. apply upd_neq, Hk.
+Qed.
+Lemma close_stream_other t s k : k <> s -> strms (close_stream t s) k = strms t k.
+Proof. intro Hk. unfold close_stream. destruct (s_live _); [cbn; apply upd_neq, Hk | reflexivity]. Qed.
+Lemma reset_pre_other t s k : k <> s -> strms (reset_pre t s) k = strms t k.
+Proof.
+  intro Hk. unfold reset_pre. cbn zeta. destruct (s_inbufs _); cbn [strms with_strm with_strms];
+    rewrite ?upd_neq by exact Hk; rewrite close_stream_other by exact Hk; cbn; apply upd_neq, Hk.
+Qed.
+Lemma prio_insert_other t j k : k <> j -> strms (prio_insert t j) k = strms t k.
+Proof. intro Hk. unfold prio_insert. destruct (s_tree _); [reflexivity|]. cbn. apply upd_neq, Hk. Qed.
 
 Theorem other_streams_untouched t l k : ~ touches l k -> strms (step t l) k = strms t k.
 Proof.
@@ -1283,20 +1611,25 @@ Proof.
   - assert (Hk : k <> s) by congruence. unfold send_iter.
     destruct (task t); try reflexivity. destruct (closed t); [reflexivity|].
     destruct (eligible (strms t s)); [|reflexivity].
-    unfold send_data. destruct (s_h2open (strms t s)); cbn [negb].
-    + destruct (s_inbufs (strms t s)); cbn [negb]; [|reflexivity].
-      destruct (sb_pop _ _) as [data b]. destruct data; destruct (sb_complete b);
-        cbn [strms with_strm with_strms emit with_cwin]; apply upd_neq, Hk.
-    + destruct (s_inbufs (strms t s)); [cbn; apply upd_neq, Hk | reflexivity].
+    unfold send_data. destruct (s_h2open (strms t s)); cbn [negb]; [|cbn; apply upd_neq, Hk].
+    destruct (s_inbufs (strms t s)); cbn [negb]; [|cbn; apply upd_neq, Hk].
+    destruct (sb_pop _ _) as [data b]. destruct data; destruct (sb_complete b);
+      cbn [strms with_strm with_strms emit with_cwin]; apply upd_neq, Hk.
   - unfold send_iter. destruct (task t); try reflexivity. destruct (closed t); [reflexivity|].
     destruct (existsb _ _); reflexivity.
   - unfold client_step. destruct (closed t); [reflexivity|].
-    destruct c as [s prog|s n|n|n|s|]; try (exfalso; apply Hn; exact I).
+    destruct c as [s prog|s n|n|n|s|s dep|s|s|]; try (exfalso; apply Hn; exact I); try reflexivity.
     + assert (Hk : k <> s) by congruence. destruct (s_created _); [reflexivity|]. cbn. apply upd_neq, Hk.
-    + assert (Hk : k <> s) by congruence. cbn. apply upd_neq, Hk.
-    + assert (Hk : k <> s) by congruence. unfold close_stream.
-      cbn [strms with_strm with_strms]. rewrite upd_same. cbn [s_live set_h2open].
-      destruct (s_live (strms t s)); cbn [strms with_strm with_strms with_has_data]; rewrite !upd_neq by exact Hk; reflexivity.
+    + assert (Hk : k <> s) by congruence. cbn [strms with_has_data]. rewrite unblock_or_crash_other by exact Hk.
+      cbn. apply upd_neq, Hk.
+    + assert (Hk : k <> s) by congruence.
+      change (strms (with_has_data (unblock_or_crash (reset_pre t s) s) true) k = strms t k).
+      cbn [strms with_has_data]. rewrite unblock_or_crash_other by exact Hk. apply reset_pre_other, Hk.
+    + assert (Hk : k <> s) by (intro; apply Hn; left; congruence).
+      assert (Hd : k <> dep) by (intro; apply Hn; right; congruence).
+      change (strms (with_has_data (prio_insert (if dep =? 0 then t else prio_insert t dep) s) true) k = strms t k).
+      cbn [strms with_has_data]. rewrite prio_insert_other by exact Hk.
+      destruct (dep =? 0); [reflexivity | apply prio_insert_other, Hd].
 Qed.
 
 (* ---- a stream with data and window is served whatever the state of the others: the iteration
